@@ -107,9 +107,9 @@ def run_nesting(ctx, rng, quick):
                 gm_ops = numqi.gellmann.all_gellmann_matrix(N, with_I=False)
                 bv = numqi.gellmann.dm_to_gellmann_basis(rho)
                 bloch_dir = bv / np.linalg.norm(bv)
-                ev.append(dict(op='beta', cls='DM', k=0, value=units(E.get_density_matrix_boundary(rho)[1])))
-                ev.append(dict(op='beta', cls='PPT', k=0, value=units(E.get_ppt_boundary(rho, dims)[1])))
-                ev.append(dict(op='beta', cls='PPT', k=0, value=units(float(E.get_ppt_numerical_range(gm_ops, bloch_dir, dims, use_tqdm=False)) / 2)))
+                ev.append(dict(op='beta', slack=0, cls='DM', k=0, value=units(E.get_density_matrix_boundary(rho)[1])))
+                ev.append(dict(op='beta', slack=0, cls='PPT', k=0, value=units(E.get_ppt_boundary(rho, dims)[1])))
+                ev.append(dict(op='beta', slack=0, cls='PPT', k=0, value=units(float(E.get_ppt_numerical_range(gm_ops, bloch_dir, dims, use_tqdm=False)) / 2)))
                 kmax = 3 if (quick or dims[0] * dims[1] > 6) else 4
                 for k in range(1, kmax + 1):
                     if dims[0] * dims[1] ** k > (60 if quick else 130):
@@ -118,12 +118,17 @@ def run_nesting(ctx, rng, quick):
                         if cls in ('BOSP', 'EXTP') and k == 1:
                             continue
                         b = E.get_ABk_symmetric_extension_boundary(rho, dims, k, **kw)
-                        ev.append(dict(op='beta', cls=cls, k=k, value=units(b)))
+                        ev.append(dict(op='beta', slack=0, cls=cls, k=k, value=units(b)))
                         if k >= 2 and t % 2 == 0:
                             # the same boundary through the operator-space routine: with the full (traceless) Gell-Mann basis as operators
                             # and the unit Bloch direction, Tr(rho G_i) = 2 a_i, hence beta_range = 2 beta (same class => equal within Tol)
                             b2 = E.get_ABk_extension_numerical_range(gm_ops, bloch_dir, dims, k, use_tqdm=False, **kw)
-                            ev.append(dict(op='beta', cls=cls, k=k, value=units(float(b2) / 2)))
+                            ev.append(dict(op='beta', slack=0, cls=cls, k=k, value=units(float(b2) / 2)))
+                if t < (1 if quick else 3) and dims[0] * dims[1] <= 6:
+                    # convex hull of product states by gradient descent (AutodiffCHAREE): bisection with xtol = 1e-3 on REE < 1e-7, i.e. it
+                    # may report a point up to ~1e-3 + sqrt(1e-7) outside its hull: slack 15e-4
+                    b = E.AutodiffCHAREE(dims).get_boundary(rho, xtol=1e-3, use_tqdm=False, seed=rng.randrange(10**6))
+                    ev.append(dict(op='beta', slack=15000, cls='CHA', k=0, value=units(b)))
                 if not quick and dims == (2, 2):
                     # the convex-hull heuristic drives an LP solver that fails on some rays in this environment (cvxpy falls back to
                     # CLARABEL where the library expects ECOS; the repository's own CHA test fails the same way): a failure yields no
@@ -131,7 +136,7 @@ def run_nesting(ctx, rng, quick):
                     try:
                         model = E.CHABoundaryBagging(dims)
                         b = model.solve(rho, use_tqdm=False, seed=rng.randrange(10**6))
-                        ev.append(dict(op='beta', cls='CHA', k=0, value=units(b)))
+                        ev.append(dict(op='beta', slack=0, cls='CHA', k=0, value=units(b)))
                     except Exception as ex:
                         ctx.extra['cha_inconclusive'] = ctx.extra.get('cha_inconclusive', 0) + 1
                         ctx.extra['cha_inconclusive_reason'] = type(ex).__name__ + ': ' + str(ex)[:100]
